@@ -227,6 +227,8 @@ def gen_project(r, n_files=(3, 8), with_skips=True) -> dict:
               "stringly-typed": {"enabled": True}}
     if r.random() < 0.15:
         config["dry"]["detect_duplicate_constants"] = False
+    if r.random() < 0.4:
+        config["file-placement"] = json.loads(json.dumps(r.choice(FP_VARIANTS[1:])))
     if r.random() < 0.75:
         config.update(language_blocks(r))
         if r.random() < 0.5:
@@ -254,11 +256,43 @@ def gen_project(r, n_files=(3, 8), with_skips=True) -> dict:
             "fs0": {str(k): v for k, v in fs0.items()}}
 
 
+def content_cfg(proj: dict, cid: int) -> int:
+    """the configuration version a file version belongs to.  A configuration change is presented to the model as a
+    re-versioning of every file (a content id stands for (text, configuration read when the Linter was built)) followed by the
+    construction of a new Linter: rule behaviour stays a function of (path, version)."""
+    e = proj["contents"][cid]
+    return e[2] if len(e) > 2 else 0
+
+
+def config_of(proj: dict, k: int) -> dict:
+    return (proj.get("configs") or [proj["config"]])[k] if k else proj["config"]
+
+
+FP_VARIANTS = [None,
+               {"directories": {"pkg": {"deny": [".*y\\.py$"]}, "web": {"allow": [".*\\.ts$"]}}},
+               {"directories": {"pkg": {"allow": [".*\\.py$"]}, "rs": {"deny": [".*\\.rs$"]}, "lib": {"deny": [".*"]}}},
+               {"global_deny": [{"pattern": ".*\\.js$", "reason": "no plain JavaScript"}], "directories": {"web": {"allow": [".*\\.ts$", ".*\\.js$"]}}}]
+
+
+def config_variant(r, base: dict) -> dict:
+    """another configuration for the same project: other file-placement rules (or none), other thresholds"""
+    cfg = json.loads(json.dumps(base))
+    cur = cfg.get("file-placement")
+    fp = r.choice([v for v in FP_VARIANTS if v != cur])
+    if fp is None:
+        cfg.pop("file-placement", None)
+    else:
+        cfg["file-placement"] = json.loads(json.dumps(fp))
+    if r.random() < 0.7:
+        cfg.update(language_blocks(r))
+    return cfg
+
+
 def content_text(proj: dict, cid: int) -> str:
-    path, items = proj["contents"][cid]
-    if items == ["CONFIG"]:
+    path, items = proj["contents"][cid][:2]
+    if items and items[0] == "CONFIG":
         import yaml
-        return yaml.safe_dump(proj["config"], sort_keys=True)
+        return yaml.safe_dump(config_of(proj, items[1] if len(items) > 1 else 0), sort_keys=True)
     if items and items[0] == "IGNORE":
         return "".join(p + "\n" for p in (items[1] if len(items) > 1 else proj["ignore"]))
     return render_content(path, items)
@@ -418,7 +452,7 @@ def path_flags(root: Path, proj: dict) -> tuple[list[int], list]:
     del probe
     ig_file = root / IGNORE_NAME
     before = ig_file.read_text() if ig_file.exists() else None
-    versions = [None] + [cid for cid, (p, _items) in enumerate(proj["contents"]) if p == IGNORE_NAME]
+    versions = [None] + [cid for cid, e in enumerate(proj["contents"]) if e[0] == IGNORE_NAME]
     table = []
     with ProcessStateGuard():
         for cid in versions:
